@@ -413,6 +413,12 @@ def eos(ctx, rule):
   apps = [n for n in g.live_nodes() if any(isinstance(c.func, ast.Attribute) and c.func.attr == 'append' for c in calls_of_node(n)) and n.loops]
   exps = [n for n in g.live_nodes() if any(prog.resolve_call(bb, c) == CP + '._expect' and c.args and u(c.args[0]) == 'tokenize.NEWLINE'
                                            for c in calls_of_node(n)) and n.loops]
+  # ... or the check written out: `if <current token type> != NEWLINE: <raise>`
+  for t_ in g.live_nodes():
+    if t_.kind == 'test' and t_.loops and u(t_.ast).replace(' ', '') == 'self._current_token.type!=tokenize.NEWLINE':
+      tsucc = [b for b, k in g.succ[t_.id] if k == 'T']
+      if tsucc and all(witness(g, b, [g.exit.id]) is None for b in tsucc):
+        exps.append(t_)
   ok = bool(apps) and bool(exps)
   for a in apps:
     lpn = [x for x in g.live_nodes() if x.kind in ('test', 'for') and a.loops and (x.ast is a.loops[-1] or x.ast is getattr(a.loops[-1], 'test', None))]
